@@ -119,37 +119,7 @@ def documented_dft_size(Lv, pad):
     return D
 
 
-LAYOUTS = ["contiguous", "contiguous", "every second sample of a longer array", "one channel of an interleaved stereo array",
-           "slice at an offset of a longer array", "reversed view", "read-only"]
-
-
-def laid_out(x, layout):
-    """x's values in the given memory layout: (array to hand over, backing array, pristine copy of the backing array)."""
-    n = len(x)
-    if layout == "every second sample of a longer array":
-        back = np.full(2 * n + 1, 7.0, dtype=x.dtype)
-        back[1 : 2 * n : 2] = x
-        v = back[1 : 2 * n : 2]
-    elif layout == "one channel of an interleaved stereo array":
-        back = np.full((n, 2), 7.0, dtype=x.dtype)
-        back[:, 1] = x
-        v = back[:, 1]
-    elif layout == "slice at an offset of a longer array":
-        back = np.full(n + 11, 7.0, dtype=x.dtype)
-        back[5 : 5 + n] = x
-        v = back[5 : 5 + n]
-    elif layout == "reversed view":
-        back = x[::-1].copy()
-        v = back[::-1]
-    elif layout == "read-only":
-        back = x.copy()
-        v = back
-        v.setflags(write=False)
-    else:
-        back = x.copy()
-        v = back
-    assert v.shape == (n,) and np.array_equal(v, x)
-    return v, back, back.copy()
+from .stft import LAYOUTS, laid_out  # noqa: E402
 
 
 def oracle_features(c, x, config, D, window=None):
@@ -320,6 +290,64 @@ def small_bank(rng, filters, rate):
     if kind == "tri_analytic":
         return kind, filters.TriangularOverlappingFilterBank("bark", num_filts=5, sampling_rate=rate, analytic=True)
     return kind, filters.Fbank(num_filts=5, sampling_rate=rate)
+
+
+def narrow_bank_default_length(ctx):
+    """'With the default frame length every filter keeps at least one non-zero DFT bin' on banks whose filters are narrow
+    next to their temporal support (many filters in a narrow range; ordinary banks after EFFECTIVE_SUPPORT_THRESHOLD was
+    raised): for every filter the response rebuilt for the computer's DFT size has a non-zero bin, and a tone at the
+    filter's centre lifts its coefficient off the log floor."""
+    C.ensure_impl_path()
+    from pydrobert.speech import compute, config, filters, scales
+
+    bad = []
+    shipped = config.EFFECTIVE_SUPPORT_THRESHOLD
+    plans = [
+        ("60 linear triangles in 100-200 Hz @16k", shipped,
+         lambda: filters.TriangularOverlappingFilterBank(scales.LinearScaling(0.0), num_filts=60, low_hz=100.0, high_hz=200.0, sampling_rate=16000)),
+        ("40 linear triangles in 300-400 Hz @8k", shipped,
+         lambda: filters.TriangularOverlappingFilterBank(scales.LinearScaling(0.0), num_filts=40, low_hz=300.0, high_hz=400.0, sampling_rate=8000)),
+        ("40 mel triangles @16k, threshold 0.02", 0.02,
+         lambda: filters.TriangularOverlappingFilterBank("mel", num_filts=40, sampling_rate=16000)),
+        ("40 mel triangles @16k, threshold 0.05", 0.05,
+         lambda: filters.TriangularOverlappingFilterBank("mel", num_filts=40, sampling_rate=16000)),
+        ("30 bark triangles in 50-600 Hz @8k, threshold 0.01", 0.01,
+         lambda: filters.TriangularOverlappingFilterBank("bark", num_filts=30, low_hz=50.0, high_hz=600.0, sampling_rate=8000)),
+    ]
+    try:
+        for label, thr, mkb in plans:
+            config.EFFECTIVE_SUPPORT_THRESHOLD = thr
+            for pad in (True, False):
+                try:
+                    bank = mkb()
+                    c = compute.STFTFrameComputer(bank, frame_shift_ms=10, pad_to_nearest_power_of_two=pad, use_log=True, use_power=True)
+                except ValueError:
+                    continue
+                Lv = c.frame_length
+                D = documented_dft_size(Lv, pad)
+                rate = bank.sampling_rate
+                desc = dict(bank=label, EFFECTIVE_SUPPORT_THRESHOLD=thr, default_frame_length=Lv, dft_size=D, pad_to_nearest_power_of_two=pad)
+                ctx.count("narrow-bank-default-length")
+                ctx.case(desc, nontrivial=True)
+                dead = []
+                for i in range(bank.num_filts):
+                    st, tr = bank.get_truncated_response(i, D)
+                    if not (len(tr) >= 1 and np.any(np.abs(tr) > 0)):
+                        dead.append(i)
+                if dead:
+                    bad.append(dict(desc, what="default frame length leaves filters %s without a non-zero DFT bin" % dead[:8], n_dead=len(dead)))
+                    continue
+                # tones at a few centres: the matching coefficient is well above the floor
+                t = np.arange(4 * Lv) / float(rate)
+                for i in sorted({0, bank.num_filts // 2, bank.num_filts - 1}):
+                    f0 = float(bank.centers_hz[i])
+                    got = c.compute_full(1000.0 * np.cos(2 * np.pi * f0 * t))
+                    if got.shape[0] and not np.all(got[1:-1, i] > np.log(config.LOG_FLOOR_VALUE) + 1.0):
+                        bad.append(dict(desc, what="a tone at the centre of filter %d (%.3f Hz) leaves its coefficient at the log floor" % (i, f0)))
+                        break
+    finally:
+        config.EFFECTIVE_SUPPORT_THRESHOLD = shipped
+    return bad
 
 
 def retuned_floor(ctx):
@@ -537,6 +565,9 @@ def run(ctx):
     for b in retuned_floor(ctx)[:4]:
         ctx.fail("compute_full differs from the documented definition after config.LOG_FLOOR_VALUE was re-assigned: %s" % b.get("what"),
                  b, kind="impl")
+    for b in narrow_bank_default_length(ctx)[:4]:
+        ctx.fail("default frame length: %s" % b.get("what"), b, kind="impl")
+    # (v) the same oracle on a long loud lead followed by a quiet tail
     # (v) the same oracle on a long loud lead followed by a quiet tail
     for b in loud_then_quiet(ctx)[:4]:
         ctx.fail("compute_full differs from the documented definition: %s" % b.get("what"), b, kind="impl")
